@@ -61,3 +61,24 @@ def run_replay_file(pid, path):
         return 0 if ok else 1
     except ImportError:
         return 1
+
+
+def standin_search(pid, tool_errors, tier, seed):
+    try:
+        import replay_search
+        hit = replay_search.search(pid, [], tier, seed)
+    except Exception as e:
+        print('replay search unavailable: %r' % e)
+        return None
+    if not hit:
+        return None
+    os.makedirs(os.path.join(common.VERIF, 'replays'), exist_ok=True)
+    path = os.path.join(common.VERIF, 'replays', '%s-%d.json' % (pid, int(time.time())))
+    common.write_json(path, {
+        'property_id': pid, 'tier': tier, 'seed': seed, 'repo_head': common.repo_head(),
+        'failed_obligations': [{'obligation': 'bounded-stand-in', 'note': 'the deductive verifier could not ingest the current text of a function under contract; '
+                                'a bounded native search compared the real code with the executable transcription of the contract',
+                                'verifier_output': tool_errors[:5]}],
+        'failing_input': hit,
+    })
+    return path
